@@ -49,10 +49,12 @@ impl FieldD {
     fn default(&self) -> Leaf {
         if self.opt {
             None
-        } else if self.ty == "int" {
-            Some(vec![0, 0, 0, 0])
         } else {
-            Some(vec![])
+            Some(match self.ty {
+                "int" | "list" => vec![0, 0, 0, 0],
+                "udt" => vec![0, 0, 0, 4, 0, 0, 0, 0, 0, 0, 0, 0],
+                _ => vec![],
+            })
         }
     }
 }
@@ -83,6 +85,11 @@ fn parse_struct(info: &StructInfo, all: &[StructInfo]) -> StructD {
                 "String" => ("text", false),
                 "Option<i32>" => ("int", true),
                 "Option<String>" => ("text", true),
+                "Vec<i32>" => ("list", false),
+                "Option<Vec<i32>>" => ("list", true),
+                "U2" => ("udt", false),
+                "Option<U2>" => ("udt", true),
+                "MaybeUnset<i32>" => ("int", true), // `None` = Unset; the unset marker prints as `n`
                 _ => ("-", false),
             };
             let flatten = if fhas("flatten") {
@@ -106,7 +113,7 @@ fn parse_struct(info: &StructInfo, all: &[StructInfo]) -> StructD {
         .collect();
     StructD {
         name: info.name.to_owned(),
-        kind: info.kind.to_owned(),
+        kind: if info.kind == "svalue" { "value".to_owned() } else { info.kind.to_owned() },
         by_name: flavor == "match_by_name",
         snc: has("skip_name_checks"),
         forbid: has("forbid_excess_udt_fields"),
@@ -226,6 +233,23 @@ fn payload(rng: &mut Rng, ty: &str) -> Vec<u8> {
             let n = *rng.pick(&[0usize, 1, 1, 2, 3]);
             (0..n).map(|_| b'a' + rng.below(26) as u8).collect()
         }
+        "list" => {
+            let n = rng.below(3) as usize;
+            let mut b = (n as i32).to_be_bytes().to_vec();
+            for _ in 0..n {
+                b.extend_from_slice(&4i32.to_be_bytes());
+                b.extend_from_slice(&payload(rng, "int"));
+            }
+            b
+        }
+        "udt" => {
+            let mut b = 4i32.to_be_bytes().to_vec();
+            b.extend_from_slice(&payload(rng, "int"));
+            let t = payload(rng, "text");
+            b.extend_from_slice(&(t.len() as i32).to_be_bytes());
+            b.extend_from_slice(&t);
+            b
+        }
         _ => vec![rng.below(2) as u8],
     }
 }
@@ -278,10 +302,11 @@ fn permutations(n: usize) -> Vec<Vec<usize>> {
 }
 
 fn other_ty(rng: &mut Rng, ty: &str) -> &'static str {
-    match (ty, rng.below(2)) {
-        ("int", 0) => "text",
-        ("text", 0) => "int",
-        _ => "boolean",
+    loop {
+        let t = *rng.pick(&["int", "text", "boolean", "list", "udt"]);
+        if t != ty {
+            return t;
+        }
     }
 }
 
@@ -467,12 +492,15 @@ pub fn generate(rng: &mut Rng, tier: Tier, emit: &mut dyn FnMut(String)) {
             if vi % 11 == 0 && m > 0 {
                 let mut cells = gen_cells(rng, db, 0);
                 let i = rng.below(m as u64) as usize;
-                cells[i] = Some(match rng.below(3) {
-                    0 => vec![],
-                    1 => vec![0, 0, 1],
-                    _ => vec![0, 0, 0, 0, 1],
-                });
-                emit(case_line(dop, &desc, db, &cells));
+                // only int / text columns: collection and UDT payloads are always well-formed here (C01, C08)
+                if db[i].ty == "int" || db[i].ty == "text" || db[i].ty == "boolean" {
+                    cells[i] = Some(match rng.below(3) {
+                        0 => vec![],
+                        1 => vec![0, 0, 1],
+                        _ => vec![0, 0, 0, 0, 1],
+                    });
+                    emit(case_line(dop, &desc, db, &cells));
+                }
             }
         }
     }
@@ -489,6 +517,8 @@ fn parse_db(ws: &[&str]) -> Option<Vec<Col>> {
             let ty = match t {
                 "int" => "int",
                 "text" => "text",
+                "list" => "list",
+                "udt" => "udt",
                 "boolean" => "boolean",
                 _ => return None,
             };
@@ -511,7 +541,8 @@ fn decode_cells(mut b: &[u8]) -> Option<Vec<Leaf>> {
         let n = i32::from_be_bytes([b[0], b[1], b[2], b[3]]);
         b = &b[4..];
         if n < 0 {
-            if n != -1 {
+            // -1 = null, -2 = unset (`MaybeUnset::Unset`), canonicalised to null here (the marker itself: C01)
+            if n != -1 && n != -2 {
                 return None;
             }
             out.push(None);
@@ -751,6 +782,8 @@ fn expected_field(f: &FieldD, cell: &Leaf) -> Result<Leaf, ()> {
                 Ok(f.default())
             } else if f.opt {
                 Ok(None)
+            } else if f.ty == "list" {
+                Ok(f.default()) // a null list deserializes to the empty Vec
             } else {
                 Err(())
             }
@@ -779,7 +812,7 @@ fn de_expected_ok(d: &StructD, db: &[Col], cells: &[Leaf]) -> bool {
                 }
                 match cells.get(i).cloned().unwrap_or(None) {
                     None => {
-                        if !(f.opt || f.default_when_null) {
+                        if !(f.opt || f.default_when_null || f.ty == "list") {
                             return false;
                         }
                     }
@@ -883,7 +916,11 @@ pub fn run(case: &str, ctx: &mut Ctx) -> String {
             for ((f, _), v) in lv.iter().zip(&vals) {
                 let ok = match v {
                     None => f.opt,
-                    Some(b) => if f.ty == "int" { b.len() == 4 } else { b.iter().all(|x| *x < 0x80) },
+                    Some(b) => match f.ty {
+                        "int" => b.len() == 4,
+                        "text" => b.iter().all(|x| *x < 0x80),
+                        _ => true,
+                    },
                 };
                 if !ok {
                     return "bad-case".to_owned();
